@@ -703,6 +703,13 @@ def build():
     for lem in p7.lemmas:
         plan.lemmas.append(lem)
 
+    # ------------------------------------------------------------------ a new table shares no keyed list with the table it is modelled on
+    # "saving ... the saved file reopens to the same grid": Document.save hands every table to the writers (C16's contract, re-verified here)
+    from contracts import C16_save
+    C16_save.add(plan, ctx, lambda plan_, c: {"custom": "search_edit", "native_module": plan_.native_module, "op": "add_row"})
+    from contracts.shared_ground import added_table_owns_every_keyed_list
+    plan.ground.append(("added-table-owns-every-keyed-list", added_table_owns_every_keyed_list))
+
     plan.bounded.append(BoundedStandIn(
         "edit-histories", "c03_histories.py", ["--max-len", "2", "--random", "40", "--small"],
         thorough_args=["--max-len", "2", "--random", "400", "--random-len", "30"],
